@@ -106,6 +106,13 @@ Fixpoint p_path (acc : list str) (r : list ttok) {struct r} : list str * list tt
 Definition is_brk (brk t : ttok) : bool :=
   match brk, t with KRDiff, KRDiff => true | KRAngle, KRAngle => true | _, _ => false end.
 
+Definition hd_is (p : ttok -> bool) (ts : list ttok) : bool := match ts with t :: _ => p t | [] => false end.
+Definition k_dot (t : ttok) : bool := match t with KDot => true | _ => false end.
+Definition k_comma (t : ttok) : bool := match t with KComma => true | _ => false end.
+Definition k_amp (t : ttok) : bool := match t with KAmp => true | _ => false end.
+Definition k_rbrk (t : ttok) : bool := match t with KRBrk => true | _ => false end.
+Definition k_ell (t : ttok) : bool := match t with KEllipsis => true | _ => false end.
+
 Fixpoint p_term (fuel : nat) (ts : list ttok) : option (tterm * list ttok) :=
   match fuel with
   | O => None
@@ -118,13 +125,11 @@ Fixpoint p_term (fuel : nat) (ts : list ttok) : option (tterm * list ttok) :=
       | KCoref s :: r => Some (MCoref doc s, r)
       | KIdent s :: r => Some (MId doc s, r)
       | KLBrk :: r =>
-          match r with
-          | KRBrk :: r' => Some (MAvm doc [], r')
-          | _ => match p_feats f r with
-                 | Some (feats, r') => Some (MAvm doc feats, r')
-                 | None => None
-                 end
-          end
+          if hd_is k_rbrk r then Some (MAvm doc [], tl r)
+          else match p_feats f r with
+               | Some (feats, r') => Some (MAvm doc feats, r')
+               | None => None
+               end
       | KLDiff :: r =>
           match p_list f KRDiff r with
           | Some (values, _, _, r') => Some (MDiff doc values, r')
@@ -143,12 +148,13 @@ with p_conj (fuel : nat) (ts : list ttok) : option (conj * list ttok) :=
   | O => None
   | S f =>
       match p_term f ts with
-      | Some (t, KAmp :: r) =>
-          match p_conj f r with
-          | Some (c, r') => Some (t :: c, r')
-          | None => None
-          end
-      | Some (t, r) => Some ([t], r)
+      | Some (t, r) =>
+          if hd_is k_amp r then
+            match p_conj f (tl r) with
+            | Some (c, r') => Some (t :: c, r')
+            | None => None
+            end
+          else Some ([t], r)
       | None => None
       end
   end
@@ -160,19 +166,19 @@ with p_feats (fuel : nat) (ts : list ttok) : option (list (list str * conj) * li
       match ts with
       | KIdent a :: r =>
           let '(path, r1) := p_path [ascii_upper a] r in
-          match r1 with
-          | KDot :: _ => None          (* a dot not followed by a feature name *)
-          | _ =>
-              match p_conj f r1 with
-              | Some (c, KComma :: r2) =>
-                  match p_feats f r2 with
+          if hd_is k_dot r1 then None          (* a dot not followed by a feature name *)
+          else
+            match p_conj f r1 with
+            | Some (c, r2) =>
+                if hd_is k_comma r2 then
+                  match p_feats f (tl r2) with
                   | Some (fs, r3) => Some ((path, c) :: fs, r3)
                   | None => None
                   end
-              | Some (c, KRBrk :: r2) => Some ([(path, c)], r2)
-              | _ => None
-              end
-          end
+                else if hd_is k_rbrk r2 then Some ([(path, c)], tl r2)
+                else None
+            | None => None
+            end
       | _ => None
       end
   end
@@ -182,39 +188,28 @@ with p_list (fuel : nat) (brk : ttok) (ts : list ttok)
   match fuel with
   | O => None
   | S f =>
-      match ts with
-      | [] => None
-      | t0 :: r0 =>
-          if is_brk brk t0 then Some ([], CClosed, None, r0)
-          else
-            match t0 with
-            | KEllipsis =>
-                match r0 with
-                | t1 :: r1 => if is_brk brk t1 then Some ([], COpen, None, r1) else None
-                | [] => None
-                end
-            | _ =>
-                match p_conj f ts with
-                | Some (c, KDot :: r1) =>
-                    match p_conj f r1 with
-                    | Some (e, t2 :: r2) => if is_brk brk t2 then Some ([c], CClosed, Some e, r2) else None
-                    | _ => None
-                    end
-                | Some (c, KComma :: r1) =>
-                    match p_list f brk r1 with
-                    | Some (vs, ending, dotted, r2) =>
-                        (* an immediately closing bracket after a comma is not accepted *)
-                        match r1 with
-                        | t1 :: _ => if is_brk brk t1 then None else Some (c :: vs, ending, dotted, r2)
-                        | [] => None
-                        end
+      if hd_is (is_brk brk) ts then Some ([], CClosed, None, tl ts)
+      else if hd_is k_ell ts then
+        (if hd_is (is_brk brk) (tl ts) then Some ([], COpen, None, tl (tl ts)) else None)
+      else
+        match p_conj f ts with
+        | Some (c, r) =>
+            if hd_is k_dot r then
+              match p_conj f (tl r) with
+              | Some (e, r2) => if hd_is (is_brk brk) r2 then Some ([c], CClosed, Some e, tl r2) else None
+              | None => None
+              end
+            else if hd_is k_comma r then
+              (* a closing bracket right after a comma is not accepted *)
+              (if hd_is (is_brk brk) (tl r) then None
+               else match p_list f brk (tl r) with
+                    | Some (vs, ending, dotted, r2) => Some (c :: vs, ending, dotted, r2)
                     | None => None
-                    end
-                | Some (c, t1 :: r1) => if is_brk brk t1 then Some ([c], CClosed, None, r1) else None
-                | _ => None
-                end
-            end
-      end
+                    end)
+            else if hd_is (is_brk brk) r then Some ([c], CClosed, None, tl r)
+            else None
+        | None => None
+        end
   end.
 
 (* ---------------------------------------------------------------- *)
